@@ -84,6 +84,22 @@ func reportRaces(run *hx.Run, prefix string) {
 	}
 }
 
+func goroutineSummary() string {
+	buf := make([]byte, 1<<18)
+	n := runtime.Stack(buf, true)
+	var out []string
+	for _, g := range strings.Split(string(buf[:n]), "\n\n") {
+		if strings.Contains(g, "alicebob/sqlittle") {
+			lines := strings.Split(g, "\n")
+			if len(lines) > 6 {
+				lines = lines[:6]
+			}
+			out = append(out, strings.Join(lines, " | "))
+		}
+	}
+	return clip(strings.Join(out, " || "), 1500)
+}
+
 func producerGoroutines() int {
 	buf := make([]byte, 1<<20)
 	n := runtime.Stack(buf, true)
@@ -135,6 +151,12 @@ func sqlRows(sq *gosql.DB, ctx context.Context, q string) ([]hx.Row, []string, e
 		}
 		if err := rs.Scan(ptrs...); err != nil {
 			return out, cols, err
+		}
+		for i, v := range vals {
+			if b, ok := v.([]byte); ok && b == nil {
+				// a non-NULL value must not come back as a nil slice (an empty blob is x'', not NULL)
+				vals[i] = "<[]byte(nil) delivered for a non-NULL value>"
+			}
 		}
 		out = append(out, hx.CloneRow(vals))
 	}
@@ -294,6 +316,66 @@ func C19(run *hx.Run) {
 	}
 	run.Count("damaged_files", ncorr)
 
+	// prepared statements live longer than one query: they must follow schema changes, and a failed
+	// execution must not leave the file locked while the statement stays open
+	{
+		one, err := gosql.Open("sqlittle", path)
+		if err == nil {
+			one.SetMaxOpenConns(1)
+			stmt, err := one.Prepare("SELECT * FROM t")
+			if err == nil {
+				readStmt := func() ([]string, int, error) {
+					rs, err := stmt.Query()
+					if err != nil {
+						return nil, 0, err
+					}
+					defer rs.Close()
+					cols, _ := rs.Columns()
+					n := 0
+					for rs.Next() {
+						n++
+					}
+					return cols, n, rs.Err()
+				}
+				c1, n1, e1 := readStmt()
+				o.Exec(path, "ALTER TABLE t ADD COLUMN added_later INTEGER DEFAULT 5", "INSERT INTO t(v, ver, pad) VALUES(1, 1, 'after alter')")
+				nrows++
+				c2, n2, e2 := readStmt()
+				run.Eval(1)
+				run.Distinct("prepared/alter")
+				if e1 != nil || e2 != nil {
+					run.Violation("C19/prepared/error", fmt.Sprintf("prepared SELECT * before/after ALTER TABLE: %v / %v", e1, e2), nil)
+				} else if len(c2) != len(c1)+1 || c2[len(c2)-1] != "added_later" || n2 != n1+1 {
+					run.Violation("C19/prepared/stale-after-schema-change", fmt.Sprintf("prepared SELECT * executed again after another connection ran ALTER TABLE ADD COLUMN + INSERT: columns %v (%d rows), before: %v (%d rows); the native API reports the new column", c2, n2, c1, n1), nil)
+				} else {
+					run.See("prepared", "follows-schema-change")
+				}
+				stmt.Close()
+			}
+			bad, err := one.Prepare("SELECT * FROM nosuchtable")
+			if err == nil {
+				_, qerr := bad.Query()
+				run.Eval(1)
+				run.Distinct("prepared/missing-table")
+				if qerr == nil {
+					run.Violation("C19/prepared/error-not-surfaced", "prepared SELECT on a missing table executed without error", nil)
+				}
+				if l := ourLocks(path); len(l) > 0 {
+					run.Violation("C19/leak/lock/prepared-statement-after-error", fmt.Sprintf("a prepared statement whose execution failed (%v) keeps the file locked while it stays open: %+v", qerr, l), nil)
+				}
+				if err := o.Exec(path, "UPDATE meta SET version=version+1"); err != nil {
+					run.Violation("C19/leak/writer-blocked/prepared-statement-after-error", fmt.Sprintf("after a failed execution of a prepared statement (still open) a SQLite writer gets: %v", err), nil)
+				}
+				_, qerr2 := bad.Query()
+				if qerr2 == nil || !strings.Contains(qerr2.Error(), "no such table") {
+					run.Violation("C19/prepared/second-failure-differs", fmt.Sprintf("second execution of the failing prepared statement: %v (first: %v)", qerr2, qerr), nil)
+				}
+				bad.Close()
+			}
+			one.Close()
+		}
+	}
+
 	// (c) close / cancel after every k
 	checkClean := func(key, what string) {
 		if !waitNoProducer() {
@@ -445,7 +527,19 @@ func c19Damaged(run *hx.Run, path, kind string, nrows int) {
 		return
 	}
 	defer sq.Close()
-	rows, _, err := sqlRows(sq, context.Background(), "SELECT * FROM t")
+	var rows []hx.Row
+	finished := make(chan struct{})
+	go func() {
+		rows, _, err = sqlRows(sq, context.Background(), "SELECT * FROM t")
+		close(finished)
+	}()
+	select {
+	case <-finished:
+	case <-time.After(30 * time.Second):
+		run.Eval(1)
+		run.Violation("C19/damaged/query-never-returns/"+kind, fmt.Sprintf("%s file: iterating and closing the result set of SELECT * FROM t did not return within 30 s (normal cost: milliseconds); goroutines: %s", kind, goroutineSummary()), nil)
+		return
+	}
 	run.Eval(1)
 	run.Distinct("damaged/" + path)
 	// what does the native API say about the same file?
